@@ -355,8 +355,17 @@ func runC20Case(c *fw.Ctx, id string, cs c20Case) {
 		// one action of a multi-request is answered with a server-fatal class
 		// ("regionserver stopped") while the server keeps the connection open
 		cl.OnAction = func(req *sim.Request, a *sim.Action) *sim.Exc {
-			if req.Multi != nil && a.OpID != "" && atomic.CompareAndSwapInt32(&faultOnce, 0, 1) {
-				return &sim.Exc{Class: sim.ExcStopped}
+			if req.Multi != nil && a.OpID != "" {
+				// the first or (every other case) the last action of a multi-request
+				last := a
+				for _, ra := range req.Multi {
+					if n := len(ra.Actions); n > 0 {
+						last = ra.Actions[n-1]
+					}
+				}
+				if (cs.Seed%2 == 0 || a == last) && atomic.CompareAndSwapInt32(&faultOnce, 0, 1) {
+					return &sim.Exc{Class: sim.ExcStopped}
+				}
 			}
 			return nil
 		}
